@@ -105,3 +105,106 @@ func TestVerif_C11_EncoderSequences(t *testing.T) {
 		})
 	})
 }
+
+// A long stream: one encoder and one decoder over 70 000 frames (an hour of audio is ~170 000): state after 2^16
+// frames, reconfigurations far into the stream, the remainder handed back tens of thousands of times.
+func TestVerif_C11_LongStream(t *testing.T) {
+	m := mon.New("C11", "longstream")
+	defer m.Finish(t)
+	m.Rule("longstream: 2 (quick) / 8 (thorough) streams of 70 000 frames from ONE encoder instance (raw 1..60 bytes, every 997th frame 2041..8184 bytes, SetASC to another " +
+		"accepted configuration every ~9000 frames), concatenated and decoded by ONE decoder instance frame by frame from the remainder; raw blocks equal, remainder at the " +
+		"next sync word, reported configuration = the one in effect; the raw blocks returned are re-examined at the end; distinct = 10 000-frame block x configuration")
+	n := m.N(2, 8)
+	const frames = 70000
+	m.Require("evaluations", int64(n))
+	m.Require("stream_frames_decoded", int64(n*frames))
+	cfgs := allConfigs()
+	mon.Parallel(n, func(w, i int) {
+		r := m.Rand("longstream", i)
+		m.Case()
+		rep := map[string]interface{}{"case": i}
+		m.Guard("aac.ADTS.long-stream", nil, func() {
+			enc := newADTS(m)
+			if enc == nil {
+				return
+			}
+			c := cfgs[r.Intn(len(cfgs))]
+			set := func() bool {
+				ab := refadts.ASC{ObjectType: c.obj, SamplingIndex: c.sfi, Channels: c.ch, Tail: r.Intn(8)}.Bytes()
+				if err := enc.SetASC(ab[:]); err != nil {
+					m.Violationf("c11:setasc-accepted-config-rejected", rep, "SetASC(%s): %v", mon.Hex(ab[:]), firstLine(err))
+					return false
+				}
+				return true
+			}
+			if !set() {
+				return
+			}
+			type fr struct {
+				c   config
+				raw []byte
+				off int
+			}
+			all := make([]fr, 0, frames)
+			var stream []byte
+			for k := 0; k < frames; k++ {
+				if k > 0 && k%9001 == 0 {
+					c = cfgs[r.Intn(len(cfgs))]
+					if !set() {
+						return
+					}
+				}
+				nraw := r.Range(1, 60)
+				if k%997 == 0 {
+					nraw = r.Pick(2041, 2048, 4089, 8183, 8184)
+				}
+				raw := payload(r, nraw)
+				f, err := enc.Encode(raw)
+				if err != nil {
+					m.Violationf("c11:encode-error:long-stream", rep, "frame %d: %v", k, firstLine(err))
+					return
+				}
+				all = append(all, fr{c, raw, len(stream)})
+				stream = append(stream, f...)
+			}
+			dec := newADTS(m)
+			rest := stream
+			kept := make([][]byte, 0, frames)
+			for k, f := range all {
+				rep["frame_index"] = k
+				got, left, err := dec.Decode(rest)
+				if err != nil {
+					m.Violationf("c11:stream-frame-rejected:long-stream", rep, "frame %d of %d rejected: %v", k, frames, firstLine(err))
+					return
+				}
+				m.Count("stream_frames_decoded", 1)
+				if !compareRaw(m, got, f.raw, "frame of a long stream", ":long-stream", rep) {
+					return
+				}
+				next := len(stream)
+				if k+1 < len(all) {
+					next = all[k+1].off
+				}
+				if !bytes.Equal(left, stream[next:]) {
+					m.Violationf("c11:remainder-not-at-next-sync:long-stream", rep, "after frame %d the remainder has %d bytes, the next frame starts %d bytes before the end", k, len(left), len(stream)-next)
+					return
+				}
+				if k%1000 == 0 {
+					wp, _ := refadts.ADTSProfile(f.c.obj)
+					checkReported(m, dec, wp, f.c.sfi, f.c.ch, ":long-stream", rep)
+				}
+				if k%10000 == 0 {
+					m.Classf("long/%dk/obj%d/sfi%d/ch%d", k/1000, f.c.obj, f.c.sfi, f.c.ch)
+				}
+				kept = append(kept, got)
+				rest = left
+			}
+			for k, g := range kept {
+				if !bytes.Equal(g, all[k].raw) {
+					m.Violationf("c11:earlier-raw-block-overwritten:long-stream", rep, "the raw block returned for frame %d was changed by later Decode calls", k)
+					break
+				}
+			}
+		})
+	})
+}
